@@ -17,7 +17,7 @@
    (Examples in C02/Proofs_Concrete.v).  [effective_key] = the file key Decrypt ends up with
    (what the unwrap callback returned, or the all-zero key when it failed). *)
 From Kit Require Import C02.Defs C02.Proofs C02.Proofs_Concrete C01.Concrete C01.Proofs_Segments C01.Proofs_Oracle
-     C01.ModelX C02.ProofsX C02.ProofsX_Concrete.
+     C01.ModelX C02.ProofsX C02.ProofsX_Concrete C02.ProofsX2 C02.ProofsX2_Concrete.
 
 (* Release only after open (no premise, any input, any unwrap callback): when Decrypt returns a
    stream, the header MAC was verified under the key in use, and every chunk handed to the
@@ -249,3 +249,99 @@ Theorem C02_header_read_error_dropped_refuted :
     decrypt_stream_x concrete Fixed Fixed 2 400 ex_unwrap [] xs = DecCallError DEHeader.
 Proof. exact header_read_error_dropped_refuted. Qed.
 Print Assumptions C02_header_read_error_dropped_refuted.
+
+(* ---- the theorems above, for the model the check evaluates, on EVERY extended script ---- *)
+
+(* Termination / definiteness (no premise): for every finite read script — any bytes, any
+   chunking, zero-length reads, errors alone or together with data, one-shot or sticky — the
+   model's fuel suffices: Decrypt ends with a definite outcome, never with the model artefacts
+   "out of fuel". *)
+Theorem C02_decrypt_always_definite :
+  forall (C : crypto) (v hv : variant) (S H : nat)
+         (unwrap : list N -> list N -> list N -> list N * bool) (optkn : list N) (xs : list rdx),
+    decrypt_stream_x C v hv S H unwrap optkn xs <> DecCallError DEFuel /\
+    (forall out, decrypt_stream_x C v hv S H unwrap optkn xs <> DecStream out SOutOfFuel).
+Proof. exact decrypt_stream_x_definite. Qed.
+Print Assumptions C02_decrypt_always_definite.
+
+(* The two "short non-final segment" / "empty non-first segment" guards of processSegments
+   (scheme.go, io.ErrUnexpectedEOF) are unreachable under the io.Reader contract, whatever the
+   input: a tampered document is never rejected by them but by the AEAD or the MAC. *)
+Theorem C02_guards_unreachable :
+  forall (C : crypto) (v hv : variant) (S H : nat)
+         (unwrap : list N -> list N -> list N -> list N * bool) (optkn : list N) (xs : list rdx)
+         (out : list N),
+    decrypt_stream_x C v hv S H unwrap optkn xs <> DecStream out SUnexpectedEOF.
+Proof. exact decrypt_stream_x_no_unexpected_eof. Qed.
+Print Assumptions C02_guards_unreachable.
+
+(* Release only after open, for every extended script and both variants of readHeader (no
+   premise): what reaches the consumer is a sequence of successful AEAD opens of the pieces of
+   ALL the data the source delivered after the header ([xdata r'], bytes delivered together
+   with an error included), each at its position and finality, after the header MAC check. *)
+Theorem C02_release_after_open_with_data :
+  forall (C : crypto) (v hv : variant) (S H : nat)
+         (unwrap : list N -> list N -> list N -> list N * bool) (optkn : list N) (xs : list rdx)
+         (out : list N) (st : sstatus),
+    decrypt_stream_x C v hv S H unwrap optkn xs = DecStream out st ->
+    exists man' mac' r' m',
+      read_header_x H hv xs = Some (Some (man', mac', r')) /\
+      parse_manifest C man' = Some m' /\ manifest_valid m' = true /\
+      let fk' := effective_key v unwrap optkn m' in
+      verify_header C fk' man' mac' = Some true /\
+      exists ys, out = concat ys /\
+        length ys <= length (tried S (xdata r')) /\
+        forall j, j < length ys -> exists i last c,
+          nth_error (tried S (xdata r')) j = Some (i, last, c) /\
+          open C (m_cph m') (payload_key C fk' (m_np m')) (nonce_for_segment (m_np m') i last) c
+          = Some (nth j ys []).
+Proof. exact release_after_open_x. Qed.
+Print Assumptions C02_release_after_open_with_data.
+
+(* Prefix only and no silent truncation for the model the check evaluates (current tree), on
+   EVERY extended script: with forgeries excluded for this input and the unwrap callback
+   yielding the original file key for the manifest actually parsed from it, everything released
+   is a prefix of the original plaintext; a clean end means the original payload and the whole
+   plaintext, or an empty payload and nothing; a source error (alone or with data, once or
+   sticky, anywhere) never ends cleanly; and the outcome is always definite.  These are exactly
+   the clauses of the check's oracle ([tamper_oracle], C02_oracle_sound) plus termination, as
+   ONE statement about [decrypt_stream_x]. *)
+Theorem C02_model_meets_oracle :
+  forall (C : crypto) (S H : nat), crypto_ok C -> 0 < S ->
+  forall (v : variant) (unwrap : list N -> list N -> list N -> list N * bool)
+         (optkn : list N) (xs : list rdx) (m : manifest) (fk p : list N),
+    manifest_bytes_ok m -> manifest_valid m = true ->
+    (forall man' mac' r',
+        read_header_x H Fixed xs = Some (Some (man', mac', r')) ->
+        hmac_forge_free C m fk man' mac' /\ forge_free C S m fk p (xdata r')) ->
+    (forall man' mac' r' m',
+        read_header_x H Fixed xs = Some (Some (man', mac', r')) ->
+        parse_manifest C man' = Some m' -> effective_key v unwrap optkn m' = fk) ->
+    let r := decrypt_stream_x C v Fixed S H unwrap optkn xs in
+    (exists rest, p = released r ++ rest) /\
+    (is_clean r = true -> released r = p \/ released r = []) /\
+    (xends_eof xs = false -> is_clean r = false) /\
+    r <> DecCallError DEFuel /\ (forall out, r <> DecStream out SOutOfFuel).
+Proof. exact model_meets_oracle_x. Qed.
+Print Assumptions C02_model_meets_oracle.
+
+(* ... with the payload fact of the clean case spelled out. *)
+Theorem C02_no_silent_truncation_with_data :
+  forall (C : crypto) (S H : nat), crypto_ok C -> 0 < S ->
+  forall (v : variant) (unwrap : list N -> list N -> list N -> list N * bool)
+         (optkn : list N) (xs : list rdx) (m : manifest) (fk p : list N),
+    manifest_bytes_ok m -> manifest_valid m = true ->
+    (forall man' mac' r',
+        read_header_x H Fixed xs = Some (Some (man', mac', r')) ->
+        hmac_forge_free C m fk man' mac' /\ forge_free C S m fk p (xdata r')) ->
+    (forall man' mac' r' m',
+        read_header_x H Fixed xs = Some (Some (man', mac', r')) ->
+        parse_manifest C man' = Some m' -> effective_key v unwrap optkn m' = fk) ->
+    is_clean (decrypt_stream_x C v Fixed S H unwrap optkn xs) = true ->
+    exists man' mac' r',
+      read_header_x H Fixed xs = Some (Some (man', mac', r')) /\
+      ((xdata r' = payload_of C S m fk p /\
+        released (decrypt_stream_x C v Fixed S H unwrap optkn xs) = p) \/
+       (xdata r' = [] /\ released (decrypt_stream_x C v Fixed S H unwrap optkn xs) = [])).
+Proof. exact clean_implies_same_payload_x. Qed.
+Print Assumptions C02_no_silent_truncation_with_data.
